@@ -6,11 +6,13 @@ import (
 	"image"
 	"image/color"
 	"math"
+	"strings"
 
 	webp "github.com/deepteams/webp"
 	"github.com/deepteams/webp/internal/zzverif/choice"
 	"github.com/deepteams/webp/internal/zzverif/fw"
 	"github.com/deepteams/webp/internal/zzverif/imgs"
+	"github.com/deepteams/webp/internal/zzverif/riffwalk"
 )
 
 // C20 — option handling is total and matches its documentation.
@@ -95,7 +97,73 @@ type c20Case struct {
 	Dev   map[string]int
 	Equiv string `json:",omitempty"`
 	Bnd   string `json:",omitempty"`
+	WKind string `json:",omitempty"` // writer-fault part: which output kind
+	WAt   int    `json:",omitempty"` // ... the writer accepts this many bytes in total
+	WPart bool   `json:",omitempty"` // ... and reports the bytes it took from the failing Write (else 0)
+	WPic  int    `json:",omitempty"` // ... picture variant (0: even image payload, 1: odd)
 	Seed  int64
+}
+
+// c20WriterKinds: outputs that take different write paths (simple and extended container,
+// streaming and buffered lossless, one Write or several).
+var c20WriterKinds = []struct {
+	name string
+	opt  func() *webp.EncoderOptions
+}{
+	{"lossy", func() *webp.EncoderOptions { return lossyOpts(nil) }},
+	{"lossy-exif", func() *webp.EncoderOptions {
+		return lossyOpts(func(o *webp.EncoderOptions) { o.EXIF = []byte{1, 2, 3} })
+	}},
+	{"lossless", func() *webp.EncoderOptions { return &webp.EncoderOptions{Lossless: true, Quality: 75, Method: 4} }},
+	{"lossless-icc-xmp", func() *webp.EncoderOptions {
+		return &webp.EncoderOptions{Lossless: true, Quality: 75, Method: 4, ICC: []byte{7}, XMP: []byte{8, 9}}
+	}},
+}
+
+// c20WriterImg returns the v-th picture for an output kind; v = 0, 1 are chosen (by searching the
+// filler) so that the image chunk's payload has even and odd length: the pad byte is a Write too.
+func c20WriterImg(kind string, seed int64, v int) *image.NRGBA {
+	mk := func(sd int64) *image.NRGBA {
+		if strings.HasPrefix(kind, "lossy") {
+			return imgs.Make(16, 16, "noise", "agradient", sd) // alpha: extended container, ALPH + VP8 chunks
+		}
+		return imgs.Make(9, 5, "noise", "binary", sd)
+	}
+	var opt *webp.EncoderOptions
+	for _, k := range c20WriterKinds {
+		if k.name == kind {
+			opt = k.opt()
+		}
+	}
+	for sd := seed; sd < seed+200; sd++ {
+		f, err := riffwalk.Parse(mustEncode(mk(sd), opt))
+		if err == nil && len(f.Frames) == 1 && len(f.Frames[0].Bitstream)%2 == v%2 {
+			return mk(sd)
+		}
+	}
+	return mk(seed)
+}
+
+// limitWriter accepts limit bytes in total, then fails.
+type limitWriter struct {
+	limit   int
+	partial bool
+	got     []byte
+	failed  bool
+}
+
+func (w *limitWriter) Write(p []byte) (int, error) {
+	room := w.limit - len(w.got)
+	if len(p) <= room {
+		w.got = append(w.got, p...)
+		return len(p), nil
+	}
+	w.failed = true
+	if w.partial && room > 0 {
+		w.got = append(w.got, p[:room]...)
+		return room, fmt.Errorf("device full")
+	}
+	return 0, fmt.Errorf("device full")
 }
 
 func (cs *c20Case) key() string {
@@ -106,6 +174,8 @@ func (cs *c20Case) key() string {
 		return fmt.Sprintf("options equivalence {%s} on %dx%d %s/%s ctx{%s}", cs.Equiv, cs.Img.W, cs.Img.H, cs.Img.Content, cs.Img.Alpha, devString(cs.Dev, c02Fields))
 	case "nil-default":
 		return fmt.Sprintf("options nil=DefaultOptions on %dx%d %s/%s", cs.Img.W, cs.Img.H, cs.Img.Content, cs.Img.Alpha)
+	case "writer-fault":
+		return fmt.Sprintf("options writer-fault %s pic%d after %d bytes partial=%v", cs.WKind, cs.WPic, cs.WAt, cs.WPart)
 	}
 	return fmt.Sprintf("options total %dx%d %s/%s opts{%s}", cs.Img.W, cs.Img.H, cs.Img.Content, cs.Img.Alpha, devString(cs.Dev, c20Fields))
 }
@@ -149,6 +219,34 @@ func (cs *c20Case) run() string {
 			return "Encode returned nil but " + d
 		}
 		return ""
+	case "writer-fault":
+		for _, k := range c20WriterKinds {
+			if k.name != cs.WKind {
+				continue
+			}
+			w := &limitWriter{limit: cs.WAt, partial: cs.WPart}
+			var err error
+			p := func() (p string) {
+				defer func() {
+					if r := recover(); r != nil {
+						p = fmt.Sprint(r)
+					}
+				}()
+				err = webp.Encode(w, c20WriterImg(k.name, cs.Seed, cs.WPic), k.opt())
+				return ""
+			}()
+			if p != "" {
+				return "Encode panicked when the writer failed: " + first(p)
+			}
+			if !w.failed {
+				return "" // the output is shorter than the limit: nothing was injected
+			}
+			if err == nil {
+				return fmt.Sprintf("Encode returned nil although the writer failed after %d bytes (the file is cut short)", len(w.got))
+			}
+			return ""
+		}
+		return "unknown writer kind " + cs.WKind
 	case "nil-default":
 		a, e1, p1 := encode(src, nil)
 		b, e2, p2 := encode(src, webp.DefaultOptions())
@@ -309,7 +407,7 @@ var c20Boundaries = []string{"nil-writer", "nil-image", "nil-image-nil-opts-loss
 
 func init() {
 	registerCases[c20Case]("C20", "exploration",
-		"EncoderOptions: every field at its boundary values (min-1, min, min+1, sentinels, max-1, max, max+1, MinInt, MaxInt; floats: NaN, +-Inf, -0, tiny, 100.0001), all (field,value) pairs across fields (deviation bound 2; thorough: all triples, bound 3, and a fourth picture) x 3 pictures; oracle: no panic, error XOR conformant decodable file.  Plus every documented equivalence (sentinel = explicit default, inert fields) under every single-field context (bound 1), nil = DefaultOptions(), and boundary images (nil arguments, empty/inverted bounds, 16383 / 16384 px, failing writer)",
+		"EncoderOptions: every field at its boundary values (min-1, min, min+1, sentinels, max-1, max, max+1, MinInt, MaxInt; floats: NaN, +-Inf, -0, tiny, 100.0001), all (field,value) pairs across fields (deviation bound 2; thorough: all triples, bound 3, and a fourth picture) x 3 pictures; oracle: no panic, error XOR conformant decodable file.  Plus every documented equivalence (sentinel = explicit default, inert fields) under every single-field context (bound 1), nil = DefaultOptions(), and boundary images (nil arguments, empty/inverted bounds, 16383 / 16384 px, failing writer), and writer faults: 4 output kinds (simple / extended container, streaming / buffered lossless) x 2 pictures (even and odd image payload) x a writer that accepts n bytes and then fails, for EVERY n below the output length, reporting 0 or the bytes it took: no panic, and never a nil error for a file that was cut short",
 		[]string{"worker count pinned to 1, pools never reuse", "validator and independent decoder as in C02"},
 		func(e *fw.Env) int {
 			if e.Quick() {
@@ -322,9 +420,25 @@ func init() {
 			if !e.Quick() {
 				images = append(images, c02Img{33, 17, "c4", "binary"})
 			}
+			wlen := make([]int, 2*len(c20WriterKinds))
+			for k, wk := range c20WriterKinds {
+				for v := 0; v < 2; v++ {
+					wlen[2*k+v] = len(mustEncode(c20WriterImg(wk.name, e.Seed, v), wk.opt()))
+				}
+			}
 			return func(c *choice.Ctx) caseI {
 				cs := &c20Case{Seed: e.Seed, Dev: map[string]int{}}
-				switch c.PickFree(4, "part") {
+				switch c.PickFree(5, "part") {
+				case 4:
+					// environment answers of the io.Writer: it accepts n bytes in total and then fails, for
+					// EVERY n below the output length, reporting either 0 or the bytes it still took
+					cs.Part = "writer-fault"
+					cs.Img = images[0]
+					k := c.PickFree(len(c20WriterKinds), "kind")
+					cs.WKind = c20WriterKinds[k].name
+					cs.WPic = c.PickFree(2, "payload parity")
+					cs.WAt = c.PickFree(wlen[2*k+cs.WPic], "bytes accepted")
+					cs.WPart = c.PickFree(2, "partial") == 1
 				case 0:
 					cs.Part = "total"
 					cs.Img = images[c.PickFree(len(images), "img")]
